@@ -282,8 +282,36 @@ def duplicate_files():
     return files
 
 
+def identity_files():
+    """two different syntax nodes of the same kind that start at the same position (`f()()`, `a.b.c`, `a + b + c`): they are
+    different values everywhere - in comparisons, in sets, as attribute values that conflict"""
+    v, c, i = A.var, A.cap, A.integer
+    files = []
+    for q in ("(call function: (call) @inner) @outer ", "(attribute object: (attribute) @inner) @outer ",
+              "(binary_operator left: (binary_operator) @inner) @outer ", "(subscript value: (subscript) @inner) @outer "):
+        files.append(A.file([A.stanza(q, [A.node(v("n")), A.attrn(v("n"), A.attr("same", A.call("eq", c("inner"), c("outer"))), A.attr("self", A.call("eq", c("inner"), c("inner"))),
+                                                                 A.attr("both", A.st(c("inner"), c("outer"))), A.attr("pair", A.lst(c("outer"), c("inner"))),
+                                                                 A.attr("in-list", A.call("eq", A.lst(c("inner")), A.lst(c("outer")))))])]))
+        files.append(A.file([A.stanza(q, [A.node(v("n")), A.attrn(v("n"), A.attr("a", c("inner"))), A.attrn(v("n"), A.attr("a", c("outer")))])]))
+        files.append(A.file([A.stanza(q, [A.node(v("n")), A.attrn(v("n"), A.attr("a", c("inner"))), A.attrn(v("n"), A.attr("a", c("inner"))),
+                                          A.let(A.svar(c("inner"), "v"), i(1)), A.let(A.svar(c("outer"), "v"), i(2)),
+                                          A.attrn(v("n"), A.attr("vi", A.svar(c("inner"), "v")), A.attr("vo", A.svar(c("outer"), "v")))])]))
+    # null is a value like any other: assigning it again is accepted, another value conflicts - in either order
+    files.append(A.file([A.stanza("(module) @_m ", [A.node(v("n")), A.attrn(v("n"), A.attr("k", A.null())), A.attrn(v("n"), A.attr("k", A.null()))])]))
+    files.append(A.file([A.stanza("(module) @_m ", [A.node(v("n")), A.attrn(v("n"), A.attr("k", A.null())), A.attrn(v("n"), A.attr("k", i(1)))])]))
+    files.append(A.file([A.stanza("(module) @_m ", [A.node(v("n")), A.attrn(v("n"), A.attr("k", i(1))), A.attrn(v("n"), A.attr("k", A.null()))])]))
+    files.append(A.file([A.stanza("(function_definition name: (identifier) @nm return_type: (_)? @rt) ", [A.node(A.svar(c("nm"), "n")), A.attrn(A.svar(c("nm"), "n"), A.attr("rt", c("rt")))]),
+                         A.stanza("(function_definition name: (identifier) @nm return_type: (_)? @rt) ", [A.attrn(A.svar(c("nm"), "n"), A.attr("rt", c("rt")))])]))
+    return files
+
+
 def collection_cases(prefix):
     cases = []
+    names = A.source_names()
+    nest = [j + 1 for j, nm in enumerate(names) if any(k in nm for k in ("s13_", "s17i_", "s02_"))]
+    for k, f in enumerate(identity_files()):
+        for src in nest:
+            cases += A.both_modes("%s-ident-%d-%d" % (prefix, k, src), f, src)
     for k, f in enumerate(duplicate_files()):
         for src in (2, 3, 7, 9, 17, 20):
             cases += A.both_modes("%s-dupl-%d-%d" % (prefix, k, src), f, src)
